@@ -43,7 +43,7 @@ func (*BasicUndoLogBuilder) GetScanSlice(columnNames []string, tableMeta *types.
 		var (
 			scanVal interface{}
 			// Gets Meta information about the column from metData
-			columnMeta = tableMeta.Columns[columnNmae]
+			columnMeta, _ = tableMeta.GetColumnMeta(columnNmae)
 		)
 		switch strings.ToUpper(columnMeta.DatabaseTypeString) {
 		case "VARCHAR", "NVARCHAR", "VARCHAR2", "CHAR", "TEXT", "JSON", "TINYTEXT":
@@ -149,7 +149,11 @@ func (b *BasicUndoLogBuilder) buildRecordImages(rowsi driver.Rows, tableMetaData
 		columns := make([]types.ColumnImage, 0)
 		// build record image
 		for i, name := range columnNames {
-			columnMeta := tableMetaData.Columns[name]
+			// the result set names the column as the statement spelled it, the image as the catalogue does
+			columnMeta, known := tableMetaData.GetColumnMeta(name)
+			if known {
+				name = columnMeta.ColumnName
+			}
 
 			keyType := types.IndexTypeNull
 			if _, ok := tableMetaData.GetPrimaryKeyMap()[name]; ok {
